@@ -74,3 +74,9 @@ pub use swimos_introspection::IntrospectionConfig;
 use swimos_utilities::byte_channel::{ByteReader, ByteWriter};
 
 type Io = (ByteWriter, ByteReader);
+
+/// Verification hooks (only with `--cfg swimos_verif`): exposes the in-memory store.
+#[cfg(swimos_verif)]
+pub mod verif_hooks {
+    pub use crate::in_memory_store::{InMemoryNodePersistence, InMemoryPlanePersistence};
+}
